@@ -236,6 +236,12 @@ fn run(ctx: &Ctx) -> Part {
             vec![Op::ScrollRegion(1, 1), Op::ScrollOffset(2)],
             vec![Op::SetOrientation(2)],
             vec![Op::Clear { c: 0x0F0F }, Op::Sleep],
+            // a drawing call, then an orientation change: windows remembered from the old orientation
+            vec![Op::DrawIter(Pixels::Syms { syms: vec![Sym::Block { x: 0, y: 0, w: 2, h: 3 }], base: 0x0300 }), Op::SetOrientation(2)],
+            vec![Op::DrawIter(Pixels::Syms { syms: vec![Sym::Block { x: 0, y: 0, w: 2, h: 3 }], base: 0x0300 }), Op::SetOrientation(1)],
+            vec![Op::DrawIter(Pixels::List(vec![(0, 0, 0x0301), (1, 0, 0x0302)])), Op::SetOrientation(7)],
+            vec![Op::Clear { c: 0x0F0F }, Op::SetOrientation(3)],
+            vec![Op::FillSolid { r: Rect { x: 0, y: 0, w: 2, h: 2 }, c: 0x0A0A }, Op::SetOrientation(0)],
         ];
         let g = cfg.geo();
         for pre in &prefixes {
